@@ -101,9 +101,12 @@ def run(res, drv, tier, seed):
         if ci % 4 == 1:
             # pairwise measurements along a random tree over shuffled attributes, zeros that rule out one value of a separator attribute:
             # RDA / IG rebuild the parameters from the marginals clique by clique, in the order maximal_cliques() lists them
-            prob = estgen.gen_tree_problem(r, kill_value=True)
-            engine = r.choice(['RDA', 'IG', 'MD'])
-            res.count('tree-shaped measurement set with a dead separator value')
+            kill = (ci % 8 == 1)
+            prob = estgen.gen_tree_problem(r, kill_value=kill, scatter=not kill)
+            engine = r.choice(['RDA', 'IG', 'MD']) if kill else r.choice(['RDA', 'IG'])
+            res.count('tree-shaped measurement set with ' + ('a dead separator value' if kill else 'scattered zeros on measured pairs'))
+            if not prob['zeros']:
+                continue
         warm = r.random() < 0.5
         hist = r.randint(1, 3)
         iters = r.choice([1, 5, 40])
@@ -132,6 +135,31 @@ def run(res, drv, tier, seed):
             bad = f'estimate raises {type(e).__name__}: {str(e)[:120]}'
         if bad:
             res.violation('failing-input', f'{engine} (warm_start={warm}): {bad}', {'request': canon, 'expected': bad}, key=f'zeros:{engine}')
+    directed_tree_zeros(res, rng(seed, 'C10-tree'), tier)
+
+
+def directed_tree_zeros(res, r, tier):
+    """RDA and IG rebuild the parameters from the marginals clique by clique (mle), in the order maximal_cliques() lists the cliques;
+    a clique processed after both of its attributes have been seen contributes nothing - its zeros survive only if that order is a
+    running-intersection order.  Scattered zeros on measured pairs of a random tree over shuffled attributes, few iterations."""
+    for k in range(16 if tier == 'quick' else 120):
+        prob = estgen.gen_tree_problem(r, scatter=True)
+        if not prob['zeros']:
+            continue
+        engine = ['RDA', 'IG'][k % 2]
+        iters = r.choice([1, 5])
+        canon = dict(estgen.canon_problem(prob), engine=engine, iters=iters, total=float(prob['N']), warm_start=False, history=1, history_mode='grow')
+        res.case(canon, True)
+        res.count('directed: scattered zeros on a tree-shaped measurement set (' + engine + ')')
+        try:
+            eng = estgen.make_engine(prob['dom'], prob['zeros'], iters=iters)
+            model = estgen.estimate(eng, prob['meas'], float(prob['N']), engine)
+            bad = check_zeros(model, prob, r, synth=False)
+        except Exception as e:
+            bad = f'estimate raises {type(e).__name__}: {str(e)[:120]}'
+        if bad:
+            res.violation('failing-input', f'{engine} (warm_start=False): {bad}', {'request': canon, 'expected': bad}, key=f'zeros:{engine}')
+            return
 
 
 def search(res, tier, seed, broken):
